@@ -2,6 +2,7 @@
 package c09
 
 import (
+	"encoding/json"
 	"fmt"
 	"os"
 	"strings"
@@ -10,6 +11,7 @@ import (
 	"pgregory.net/rapid"
 
 	"verif/harness/hist"
+	"verif/harness/httpx"
 	"verif/harness/rec"
 	"verif/harness/ref"
 	"verif/harness/world"
@@ -110,6 +112,57 @@ func (s *state) invariant(m *hist.Machine, op string) {
 		}
 		rec.ClassN("keysets_fully_compared", 1)
 	}
+	// the same over HTTP (what wallets see; the handlers keep answers for a while): the keyset served under an id is
+	// the keyset with that id. GET /v1/keys may lag behind a rotation (the server drops its copy on a timer), so it is
+	// only required to be one of the mint's keysets, consistent in itself; asking it first is what wallets do.
+	if w.Cfg.WithServer {
+		type ksDoc struct {
+			Keysets []struct {
+				Id   string            `json:"id"`
+				Unit string            `json:"unit"`
+				Keys map[string]string `json:"keys"`
+			} `json:"keysets"`
+		}
+		get := func(path string) *ksDoc {
+			r := httpx.Do(w.Handler(), "GET", path, nil, "")
+			var d ksDoc
+			if r.Status != 200 || json.Unmarshal(r.Body, &d) != nil || len(d.Keysets) != 1 {
+				fail(m, "C09|http_keys_unreadable", "GET %s: status %d body %.200s", path, r.Status, r.Body)
+				return nil
+			}
+			return &d
+		}
+		same := func(path string, d *ksDoc, id string) {
+			ks := w.Keysets[id]
+			if ks == nil {
+				fail(m, "C09|http_keys_unknown_keyset", "GET %s returns keyset %s which the mint does not list", path, id)
+				return
+			}
+			want := ks.AllPub()
+			if len(d.Keysets[0].Keys) != len(want) {
+				fail(m, "C09|http_keys_wrong_keys", "GET %s: %d keys, want %d", path, len(d.Keysets[0].Keys), len(want))
+			}
+			for amt, p := range want {
+				if d.Keysets[0].Keys[fmt.Sprint(amt)] != p.Hex() {
+					fail(m, "C09|http_keys_wrong_keys", "GET %s: keyset %s amount %d: %s, reference %s", path, id, amt, d.Keysets[0].Keys[fmt.Sprint(amt)], p.Hex())
+					break
+				}
+			}
+		}
+		if d := get("/v1/keys"); d != nil {
+			same("/v1/keys", d, d.Keysets[0].Id)
+		}
+		for id := range w.Keysets {
+			if d := get("/v1/keys/" + id); d != nil {
+				if d.Keysets[0].Id != id {
+					fail(m, "C09|http_keys_by_id_other_keyset", "GET /v1/keys/%s returns keyset %s (after %s)", id, d.Keysets[0].Id, op)
+				} else {
+					same("/v1/keys/"+id, d, id)
+				}
+			}
+		}
+		m.Count["http_keys_read"]++
+	}
 	// spend of a pre-rotation proof
 	if (op == "swap" || op == "melt") && len(w.KSOrder) > 1 {
 		m.Count["spend_after_rotation"]++
@@ -118,9 +171,10 @@ func (s *state) invariant(m *hist.Machine, op string) {
 
 func propLifecycle(t *rapid.T) {
 	cfg := hist.GenConfig(t, []uint{0, 1, 100, 999, 1000, 2500}, false)
+	cfg.WithServer = true
 	st := &state{verified: map[string]int{}, firstFee: map[string]uint{}}
 	m := hist.Run(t, cfg, hist.Options{
-		Weights:   hist.Weights(map[string]int{"rotate": 5, "restart": 4, "swap": 8, "swap_adv": 3, "melt": 4, "meltquote": 3, "checkstate": 0, "deliver": 0, "pollmint": 0, "mint": 1, "mintquote": 1}),
+		Weights:   hist.Weights(map[string]int{"rotate": 5, "restart": 4, "swap": 8, "swap_adv": 4, "old_keyset_fee": 5, "melt": 4, "melt_adv": 2, "meltquote": 3, "checkstate": 0, "deliver": 0, "pollmint": 0, "mint": 1, "mintquote": 1}),
 		Owns:      []string{"C09"},
 		PropID:    "C09",
 		AfterStep: func(m *hist.Machine, op string) { st.invariant(m, op); m.Enforce(op) },
@@ -134,6 +188,11 @@ func propLifecycle(t *rapid.T) {
 	if m.Count["rotation"] > 0 && oldSpent > 0 {
 		rec.NonTrivial(strings.Join(m.Trace, "|"))
 		rec.Class("history_with_rotation_then_old_keyset_spend")
+		for _, k := range []string{"swap_of_retired_fee_keyset_inputs", "swap_of_retired_fee_keyset_inputs_active_free"} {
+			if m.Count[k] > 0 {
+				rec.Class("history_with_" + k)
+			}
+		}
 		rec.ClassN("rotations", m.Count["rotation"])
 		rec.ClassN("restarts", m.Count["restart"])
 		rec.Class(fmt.Sprintf("keysets=%d", len(m.W.KSOrder)))
